@@ -134,7 +134,9 @@ class SafetyMonitor(Monitor):
                                              'reported it committed before (%r)' % (nid, p, ev), sig='commit-unknown-snapshot')
                     continue
                 if old is None:
-                    if 'C04' in C or 'C10' in C:
+                    if p < 2:
+                        pass      # position 1 is the placeholder entry every node is constructed with
+                    elif 'C04' in C or 'C10' in C:
                         if sums is None:
                             sums = model.summaries(post_w)
                         mem = self.members(model, post)
